@@ -9,7 +9,7 @@ TB_COMMON = [
 
 PROPS = {}
 NOT_APPLICABLE = {}
-HOOK_COMMITS = ['2d739c2', '5b36563', '0378f89', '258053c', 'd712161', '609e415', 'fc00301', '356c1bb']
+HOOK_COMMITS = ['2d739c2', '5b36563', '0378f89', '258053c', 'd712161', '609e415', 'fc00301', '356c1bb', "6c5aa29"]
 # properties whose check exists in the tree but is not yet claimed (still being built / reviewed)
 NOT_READY = set()
 
